@@ -15,14 +15,16 @@ import (
 
 // intLine: a lattice path whose segments have integer length (axis-aligned or Pythagorean steps), with repeated
 // consecutive vertices at the start, in the middle and at the end.
-func intLine(r *rand.Rand) [][]int {
+func intLine(r *rand.Rand) [][]int { return intLineN(r, 1+r.Intn(5)) }
+
+func intLineN(r *rand.Rand, nsteps int) [][]int {
 	steps := [][2]int{{1, 0}, {0, 1}, {-1, 0}, {0, -1}, {3, 4}, {4, 3}, {-3, 4}, {4, -3}, {-4, -3}, {3, -4}, {6, 8}, {5, 12}, {-8, 6}, {2, 0}, {0, 5}}
 	x, y := r.Intn(11)-5, r.Intn(11)-5
 	pts := [][]int{{x, y}}
 	if r.Intn(4) == 0 {
 		pts = append(pts, []int{x, y})
 	}
-	for i, n := 0, 1+r.Intn(5); i < n; i++ { // at least one step: a valid LineString has two distinct points
+	for i, n := 0, nsteps; i < n; i++ { // at least one step: a valid LineString has two distinct points
 		s := steps[r.Intn(len(steps))]
 		k := 1 + r.Intn(2)
 		if s[0] != 0 && s[1] != 0 {
@@ -175,6 +177,39 @@ func linearGen(r *rand.Rand, n int, tier string, emit func(Case)) {
 		default:
 			l := &lgen{r: r, N: 3 + r.Intn(5)}
 			emit(Case{"kind": "orient", "w": l.any(4).AsText(), "ct": r.Intn(4)})
+		}
+	}
+	for i := 0; i < bigExtra(n); i++ { // large sizes: lines and rings of many vertices, collections of many members
+		l := bigLatticeTo(r, 12, 16)
+		cnt := l.bigCount()
+		switch i % 8 {
+		case 0:
+			if cnt > 36 {
+				cnt = 36
+			}
+			fd := []int{1, 2, 4, 8, 64}[r.Intn(5)]
+			emit(Case{"kind": "interp", "line": intLineN(r, cnt), "fn": r.Intn(3*fd+1) - fd, "fd": fd, "ct": r.Intn(4), "zb": r.Intn(4)})
+		case 1:
+			if cnt > 36 {
+				cnt = 36
+			}
+			emit(Case{"kind": "even", "line": intLineN(r, cnt), "n": r.Intn(53) - 2, "ct": r.Intn(4)})
+		case 2, 3:
+			side := 3 + r.Intn(14)
+			td := []int{1, 2, 4}[r.Intn(3)]
+			emit(Case{"kind": "simplify", "line": latticeLine(r, cnt, side), "tn": r.Intn(side*td + 1), "td": td, "ring": r.Intn(4) == 0, "ct": r.Intn(4)})
+		case 4:
+			td := []int{1, 2, 4}[r.Intn(3)]
+			emit(Case{"kind": "simplifypoly", "w": l.bigPolygon().AsText(), "tn": r.Intn(l.N*td/2 + 1), "td": td, "ct": r.Intn(4)})
+		case 5:
+			side := 2 + r.Intn(7)
+			dd := []int{1, 2, 4, 8}[r.Intn(4)]
+			emit(Case{"kind": "densify", "line": latticeLine(r, cnt, side), "dn": 1 + r.Intn(10*side*dd), "dd": dd, "ct": r.Intn(4)})
+		case 6:
+			dd := []int{1, 2, 4}[r.Intn(3)]
+			emit(Case{"kind": "densifyany", "w": l.bigAny().AsText(), "dn": l.N*dd/4 + r.Intn(3*l.N*dd), "dd": dd, "ct": r.Intn(4)})
+		default:
+			emit(Case{"kind": "orient", "w": l.bigAny().AsText(), "ct": r.Intn(4)})
 		}
 	}
 }
